@@ -137,3 +137,22 @@ MUTANTS += [
     M("c19-r5-no-update-on-stop", "C19", "C19.R5", LPW, "func (worker *LogProcessingWorker) onStop() {\n\tworker.flushChunk()\n\tworker.procCounter.UpdateMetrics()\n", "func (worker *LogProcessingWorker) onStop() {\n\tworker.flushChunk()\n", "records processed in the last second before shutdown are missing from the counters"),
     M("c19-r6-select-after-transforms", "C19", "C19.R6", LPW, "\t\ticounter := worker.procCounter.SelectMetricKeySet(record)\n\t\tif RunTransforms(record, worker.transformList) == base.DROP {", "\t\tresult := RunTransforms(record, worker.transformList)\n\t\ticounter := worker.procCounter.SelectMetricKeySet(record)\n\t\tif result == base.DROP {", "two consecutive records with different metric keys: transform counters attributed to the previous record's labels"),
 ]
+
+REL = "run/reloadable.go"
+RELOADER = "run/reloader.go"
+
+MUTANTS += [
+    # ---------------- C17
+    M("c17-r1-revert-newsink-lock", "C17", "C17.R1", REL, "\tlockT := orc.downstreamMutex.RLock() // only read-lock since we assume clientNumber is unique and nobody else is accessing it\n\tdefer orc.downstreamMutex.RUnlock(lockT)\n\n\t// the downstream orchestrator must be accessed within the lock, or the new sink could belong to an orchestrator\n\t// which has been shut down by reloading in the meantime\n\tnewDownstream := orc.downstream.NewSink(clientAddress, clientNumber)\n",
+      "\tnewDownstream := orc.downstream.NewSink(clientAddress, clientNumber)\n\n\tlockT := orc.downstreamMutex.RLock() // only read-lock since we assume clientNumber is unique and nobody else is accessing it\n\tdefer orc.downstreamMutex.RUnlock(lockT)\n", "SIGHUP between creating the sink and registering it: original defect D19"),
+    M("c17-r1-revert-shutdown-lock", "C17", "C17.R1", REL, "\t// wait for any ongoing reloading to finish, and block new ones while shutting down\n\tlockT := orc.downstreamMutex.RLock()\n\tdefer orc.downstreamMutex.RUnlock(lockT)\n\n\torc.downstream.Shutdown()", "\torc.downstream.Shutdown()", "SIGTERM during a SIGHUP reload: original defect D20"),
+    M("c17-r1-sink-close-unlocked", "C17", "C17.R1", REL, "func (sink *ReloadableSink) Close() {\n\tlockT := sink.downstreamMutex.RLock()\n\tdefer sink.downstreamMutex.RUnlock(lockT)\n\n", "func (sink *ReloadableSink) Close() {\n", "connection close during reload: closes the old sink, clears the slot the reload just filled"),
+    B("c17-r1-benign-explicit-unlock", "C17", REL, "func (sink *ReloadableSink) Tick() {\n\tlockT := sink.downstreamMutex.RLock()\n\tdefer sink.downstreamMutex.RUnlock(lockT)\n\n\t(*sink.downstreamPtr).Tick()\n", "func (sink *ReloadableSink) Tick() {\n\tlockT := sink.downstreamMutex.RLock()\n\t(*sink.downstreamPtr).Tick()\n\tsink.downstreamMutex.RUnlock(lockT)\n"),
+    M("c17-r2-shutdown-before-sink-close", "C17", "C17.R2", REL, "\tfor _, sink := range orc.downstreamSinks {\n\t\tif sink == nil {\n\t\t\tcontinue\n\t\t}\n\t\tsink.Close()\n\t\t// keep closed sinks in place so we know which ones to re-create below\n\t}\n\torc.downstream.Shutdown()\n",
+      "\torc.downstream.Shutdown()\n\tfor _, sink := range orc.downstreamSinks {\n\t\tif sink == nil {\n\t\t\tcontinue\n\t\t}\n\t\tsink.Close()\n\t\t// keep closed sinks in place so we know which ones to re-create below\n\t}\n", "reload while connections hold buffered records: flushed into closed pipeline channels"),
+    M("c17-r2-failure-has-side-effect", "C17", "C17.R2", REL, "\t\treloadFailureCounter.Inc()\n\t\treturn\n", "\t\treloadFailureCounter.Inc()\n\t\torc.downstream.Shutdown()\n\t\treturn\n", "reload with an invalid configuration file"),
+    M("c17-r3-loader-swapped-early", "C17", "C17.R3", RELOADER, "\tif err := checkConfigCompatibility(\n", "\treloader.Loader = newLoader\n\tif err := checkConfigCompatibility(\n", "reload with an incompatible configuration: later reloads compare against the rejected one"),
+    M("c17-r3-complete-despite-incompatible", "C17", "C17.R3", RELOADER, "\t\tnewLoader.Config, newLoader.PipelineArgs.Schema, newLoader.ConfigStats); err != nil {\n\t\treturn nil, err\n\t}", "\t\tnewLoader.Config, newLoader.PipelineArgs.Schema, newLoader.ConfigStats); err != nil {\n\t\treloader.logger.Warn(err)\n\t}", "reload with changed schema positions"),
+    M("c17-r4-revert-close-order", "C17", "C17.R4", TCP, "\t\t\t// the connection is closed by connAborter at the end, after the sink\n", "\t\t\tconnAborter.Signal()\n", "client disconnects and reconnects while the old sink is still flushing: original defect D21 (also a double Signal)", more=[(TCP, "\tdefer connAborter.Signal()\n\n", "\n")]),
+    M("c17-r5-foreign-slot-write", "C17", "C17.R5", REL, "\torc.downstream.Shutdown()\n}\n", "\torc.downstream.Shutdown()\n\torc.downstreamSinks[0] = nil\n}\n", "a slot cleared behind the back of its connection"),
+]
